@@ -320,8 +320,14 @@ func (r *run) mixed(nTx int) {
 		{"[", "t99999", "]", "b20", "t5"},      // the failed frame READ the balance: cached; bridgeCall; transfer from the stale value (*)
 		{"[", "t10", "b99999", "]", "b50", "t5"}, // the reverted write stays in dirtyStorage with the old value (*)
 		{"[", "b20", "t99999", "]", "t5"},      // a keeper-level burn inside a frame that then fails: its result is cached although reverted (*)
+		{"[", "a8", "x8", "t99999", "]", "rs"}, // crossChain succeeds inside a frame that then fails: tokens, coins and the pool entry all come back
+		{"[", "a6", "x6", "f999", "]", "t3"},   // the same, the frame failing in a transferFrom above the allowance; then a plain transfer
+		{"[", "e7", "f999", "]", "rs"},         // executeClaim succeeds inside a frame that then fails: the claim stays parked, nothing is credited
 	}
 	claimDirty := os.Getenv("VERIF_C08_CLAIM_DIRTY") == "1"
+	if claimDirty {
+		fixed = append(fixed, []string{"t5", "e15"}, []string{"rm", "e10", "t2"})
+	}
 	for i := 0; i < nTx; i++ {
 		if !refill() {
 			return
@@ -512,10 +518,12 @@ func (r *run) mixed(nTx int) {
 		// transferFrom, or cached by a read — a read or write inside a frame that is later reverted caches it as well),
 		// else the first one.
 		var flat []string
-		hasFrame, inFrame, nestedInFrame := false, false, false
+		var frameOf []int // frame number of each flat step, -1 = top level
+		hasFrame, inFrame, nestedInFrame, nFrames := false, false, false, 0
 		for _, s := range steps {
 			if s == "[" {
 				hasFrame, inFrame = true, true
+				nFrames++
 				continue
 			}
 			if s == "]" {
@@ -526,6 +534,11 @@ func (r *run) mixed(nTx int) {
 				nestedInFrame = true
 			}
 			flat = append(flat, s)
+			if inFrame {
+				frameOf = append(frameOf, nFrames)
+			} else {
+				frameOf = append(frameOf, -1)
+			}
 		}
 		touches := func(q string) bool { return q[0] == 't' || q[0] == 'x' || q == "rm" }
 		firstB, dirtyBefore, readBefore, writeAfter, hasX, hasC, hasE, hasF := -1, false, false, false, false, false, false, false
@@ -552,6 +565,29 @@ func (r *run) mixed(nTx int) {
 			hasX = hasX || s[0] == 'x'
 			hasE = hasE || s[0] == 'e'
 			hasF = hasF || s[0] == 'f'
+		}
+		// no keeper-level call ran after a touch: then the one that matters is a keeper-level call INSIDE a frame that is
+		// followed, in the same frame, by a step touching the balance slot (if the frame then fails, the slot stays cached
+		// with the value the reverted call left)
+		if firstB >= 0 {
+			touchedBefore := false
+			for _, q := range flat[:firstB] {
+				touchedBefore = touchedBefore || touches(q)
+			}
+			if !touchedBefore {
+				for k, s := range flat {
+					if (s[0] == 'b' || s[0] == 'e') && frameOf[k] >= 0 {
+						later := false
+						for j := k + 1; j < len(flat) && frameOf[j] == frameOf[k]; j++ {
+							later = later || touches(flat[j])
+						}
+						if later {
+							firstB = k
+							break
+						}
+					}
+				}
+			}
 		}
 		for k, s := range flat {
 			if firstB >= 0 && k < firstB && s[0] == 't' {
